@@ -101,6 +101,109 @@ func genC07(seed uint64, tier Tier) *Case {
 	return c
 }
 
+// ---- C05, store-level sub-profile: chunked searches racing with retention ------------------------
+//
+// "Whatever the fractions-per-iteration setting, a search returns the same ordered top IDs" also has to
+// hold for the fractions that are there during the whole search while others are retired next to it.
+// One store, fractions whose time ranges all overlap, retention running continuously, searches cut into
+// chunks of one or two fractions that take simulated time (so that maintenance passes fall between two
+// chunks), readers alternating complete listings (which teach the harness which fraction holds what)
+// with small limits on broad queries. Oracle: soundness of every listing plus the stable-fraction rule
+// (documents of fractions sealed before the search and still served after it are listed unless the
+// listing is full and ends before them).
+func genC05Retention(seed uint64, tier Tier) *Case {
+	g := newGen(seed, "c05r")
+	c := &Case{Property: "C05", Profile: "c05-retention", Seed: seed}
+	c.Knobs = g.knobs()
+	g.smallDocs = true
+	c.Knobs.FracSize = uint64(g.r.Range(1200, 3000))
+	// Retention has to run all the time, yet never reach the fraction under the writers (that would be a
+	// misconfiguration): writers pause longer than one maintenance period after every bulk, a bulk is at most
+	// 4 small documents, so between two passes at most two bulks (< 8 KB with meta) arrive; the limit leaves
+	// room for the active fraction, the one being sealed and a few sealed ones.
+	c.Knobs.TotalSize = c.Knobs.FracSize + uint64(g.r.Range(25000, 40000))
+	c.Knobs.MaintenanceDelayMs = 20
+	c.Knobs.SyncLatencyUs = []int{1000, 3000}[g.r.Intn(2)]
+	c.Knobs.StepCostNs = []int{20000, 100000, 300000}[g.r.Intn(3)]
+	c.Knobs.FractionsPerIteration = g.r.Range(1, 2)
+	c.Knobs.SearchWorkers = g.r.Range(1, 2)
+	c.Knobs.PStmt = []float64{0, 0.005, 0.03}[g.r.Intn(3)]
+	c.Oracles.NoErrors = true
+	c.Oracles.Retention = true
+	c.Mode = "cold"
+	c.Steps = append(c.Steps, Step{Kind: "start"})
+	scale := 1
+	if tier.Thorough {
+		scale = 2
+	}
+	broad := func() *model.Q {
+		switch g.r.Intn(4) {
+		case 0:
+			return &model.Q{Op: "exists", F: "svc"}
+		case 1:
+			return &model.Q{Op: "not", Kids: []*model.Q{{Op: "term", F: "k0", V: vocab[g.r.Intn(len(vocab))]}}}
+		case 2:
+			return &model.Q{Op: "or", Kids: []*model.Q{{Op: "exists", F: "num"}, {Op: "exists", F: "k1"}}}
+		default:
+			return &model.Q{Op: "term", F: "svc", V: []string{"alpha", "beta", "gamma"}[g.r.Intn(3)]}
+		}
+	}
+	var clients [][]Op
+	if g.r.Bool(0.35) {
+		// tight: the limit holds one to three full fractions plus one bulk and seals are slow (10 ms per
+		// fsync), so retention reaches fractions that are still being sealed - the hand-over object
+		// (proxyFrac) is retired while searches hold it in their snapshot. One writer, uniform bulks of
+		// about 1.2 KB on disk, each taking at least one fsync: at most one bulk arrives between two
+		// maintenance passes, so the fraction under the writer stays below the limit.
+		c.Knobs.SyncLatencyUs = 10000
+		c.Knobs.ZstdLevel = 1
+		c.Knobs.SkipSortDocs = false
+		c.Knobs.FracSize = 3000
+		c.Knobs.TotalSize = uint64(8000 + 7400*g.r.Intn(3))
+		c.Knobs.StepCostNs = []int{0, 20000, 100000}[g.r.Intn(3)]
+		var ops []Op
+		for i, n := 0, g.r.Range(40, 70*scale); i < n; i++ {
+			op := Op{Kind: "bulk"}
+			g.nextBulk++
+			op.Bulk = g.nextBulk
+			for k := 0; k < 3; k++ {
+				d := g.doc(g.nowMs + uint64(g.r.Intn(2000)))
+				d.Size = 310
+				d.Toks = []model.Tok{{F: "k0", V: vocab[g.r.Intn(len(vocab))]}, {F: "svc", V: "alpha"}}
+				op.Docs = append(op.Docs, d)
+			}
+			ops = append(ops, op)
+		}
+		clients = append(clients, ops)
+	} else {
+		for w, writers := 0, g.r.Range(1, 2); w < writers; w++ {
+			var ops []Op
+			for i, n := 0, g.r.Range(50, 80*scale); i < n; i++ {
+				ops = append(ops, g.bulk(g.r.Range(1, 4)), Op{Kind: "sleep", Ms: g.r.Range(25, 40)})
+			}
+			clients = append(clients, ops)
+		}
+	}
+	for rd, readers := 0, g.r.Range(2, 3); rd < readers; rd++ {
+		var ops []Op
+		for i, n := 0, g.r.Range(30, 60*scale); i < n; i++ {
+			s := &Search{Q: broad(), From: 0, To: math.MaxInt64, Size: 100000, Desc: g.r.Bool(0.6)}
+			if i%3 != 0 {
+				s.Size = g.r.Range(1, 8)
+			}
+			ops = append(ops, Op{Kind: "search", S: s})
+			if g.r.Bool(0.5) {
+				ops = append(ops, Op{Kind: "sleep", Ms: g.r.Range(1, 40)})
+			}
+		}
+		clients = append(clients, ops)
+	}
+	c.Steps = append(c.Steps, Step{Kind: "par", Clients: clients})
+	c.Steps = append(c.Steps, Step{Kind: "validate", Label: "writers-idle"})
+	c.Battery = g.battery(3)
+	return c
+}
+
 // ---- C08: sealing under crashes and I/O errors ---------------------------------------------------
 
 func genC08(seed uint64, tier Tier) *Case {
@@ -310,7 +413,7 @@ func genC15(seed uint64, tier Tier) *Case {
 			c.Steps = append(c.Steps, Step{Kind: "powerloss", ImageSeed: g.r.Uint64(), ImageMode: []string{"", "", "all", "none"}[g.r.Intn(4)]})
 		}
 		if g.r.Bool(0.3) {
-			c.Steps = append(c.Steps, Step{Kind: "tamper", Tamper: []string{"delete", "garble", "truncate", "stale"}[g.r.Intn(4)]})
+			c.Steps = append(c.Steps, Step{Kind: "tamper", Tamper: []string{"delete", "garble", "truncate", "stale", "moved", "moved"}[g.r.Intn(6)]})
 		}
 		if g.r.Bool(0.15) {
 			c.Steps = append(c.Steps, Step{Kind: "start_cancelled", Ms: int64(g.r.Range(1, 10))})
@@ -502,6 +605,19 @@ func genC19(seed uint64, tier Tier) *Case {
 	for _, a := range reqs {
 		c.Steps = append(c.Steps, Step{Kind: "async_start", Async: a})
 	}
+	if g.r.Bool(0.4) {
+		// ingestion goes on while the searches are queued or running: a rotation, then documents that go
+		// into a fraction that did not exist when the searches were started
+		g.nowMs += 1000
+		if g.r.Bool(0.8) {
+			c.Steps = append(c.Steps, Step{Kind: "seal"})
+		}
+		var ops []Op
+		for b := 0; b < g.r.Range(1, 3); b++ {
+			ops = append(ops, g.bulk(g.bulkSize()))
+		}
+		c.Steps = append(c.Steps, seqStep(ops...))
+	}
 	if g.r.Bool(0.5) {
 		c.Steps = append(c.Steps, Step{Kind: "sleep", Ms: int64(g.r.Range(1, 500))})
 	}
@@ -632,6 +748,19 @@ func genC14(seed uint64, tier Tier) *Case {
 					// and bucket borders
 					ts = op.Docs[len(op.Docs)-1].MID
 				}
+				if fi > 0 && len(g.docs) > 0 && g.r.Bool(0.15) {
+					// same millisecond as a document of an earlier fraction, preferably the one that defines a
+					// border (From/To) of it: fractions then tie on their borders
+					pick := g.docs[g.r.Intn(len(g.docs))]
+					if g.r.Bool(0.6) {
+						for _, d := range g.docs {
+							if (g.r.Bool(0.5) && d.MID > pick.MID) || d.MID < pick.MID && g.r.Bool(0.3) {
+								pick = d
+							}
+						}
+					}
+					ts = pick.MID
+				}
 				op.Docs = append(op.Docs, g.doc(ts))
 			}
 			ops = append(ops, op)
@@ -648,7 +777,7 @@ func genC14(seed uint64, tier Tier) *Case {
 		if g.r.Bool(0.7) {
 			c.Steps = append(c.Steps, Step{Kind: "stop"})
 			if g.r.Bool(0.4) {
-				c.Steps = append(c.Steps, Step{Kind: "tamper", Tamper: []string{"delete", "garble", "stale"}[g.r.Intn(3)]})
+				c.Steps = append(c.Steps, Step{Kind: "tamper", Tamper: []string{"delete", "garble", "stale", "moved"}[g.r.Intn(4)]})
 			}
 			c.Steps = append(c.Steps, Step{Kind: "sleep", Ms: jump}, Step{Kind: "start"}, Step{Kind: "validate", Label: fmt.Sprintf("restarted%d", fi)})
 		} else {
